@@ -96,6 +96,12 @@ class Obs(BaseComponent):
         self.world.events.append(event.name)
 
 
+def _s(b):
+    if isinstance(b, (tuple, list)):
+        return '[' + ', '.join(_s(x) for x in b) + ']'
+    return repr(b) if len(b) < 80 else repr(b[:30]) + '...(%d bytes)' % len(b)
+
+
 def wrap(cls, s):
     return cls(s.family, s.type, s.proto, fileno=s.detach())
 
@@ -171,11 +177,12 @@ class World:
     def on_send(self, data, sock):
         self.sends += 1
         if self.closed_at is not None:
-            self.bad.append(('send-after-close', 'write call with %r after the endpoint had been closed' % (data,)))
+            self.bad.append(('send-after-close', 'write call with %s after the endpoint had been closed' % (_s(data),)))
         if self.fatal is not None:
             raise OSError(self.fatal, os.strerror(self.fatal))
         n = len(data)
-        opts = [('all', n)]
+        cap = 1 << 20           # like a real socket, the OS never takes more than its buffer size in one call
+        opts = [('all', min(n, cap))]
         if n > 1:
             opts.append(('part', 1))
         if n > 2:
@@ -190,12 +197,12 @@ class World:
             else:
                 self.paths.add('transient')
             raise OSError(val, os.strerror(val))
-        if kind == 'part':
+        if kind == 'part' or val < n:
             self.paths.add('partial')
         taken = data[:val]
         new = self.accepted + taken
         if not self.expected.startswith(new):
-            self.bad.append(('not-a-prefix', 'OS accepted %r after %r; the payloads written were %r' % (taken, self.accepted, self.program[2])))
+            self.bad.append(('not-a-prefix', 'OS accepted %s after %s; the payloads written were %s' % (_s(taken), _s(self.accepted), _s(self.program[2]))))
         self.accepted = new
         return val
 
@@ -203,8 +210,8 @@ class World:
         if self.closed_at is None:
             self.closed_at = len(self.accepted)
             if self.fatal is None and self.need_before_close is not None and not self.accepted.startswith(self.need_before_close):
-                self.bad.append(('closed-early', '%s() while only %r of %r (written before the close request) had been accepted'
-                                 % (how, self.accepted, self.need_before_close)))
+                self.bad.append(('closed-early', '%s() while only %s of %s (written before the close request) had been accepted'
+                                 % (how, _s(self.accepted), _s(self.need_before_close))))
             if self.fatal is None and self.need_before_close is None:
                 self.bad.append(('closed-unasked', '%s() although no close was requested and no fatal error occurred' % how))
 
@@ -264,11 +271,11 @@ def execute(program, prefix):
         if w.fatal is None:
             if close_after is None:
                 if w.accepted != w.expected:
-                    w.bad.append(('lost-bytes', 'at quiescence the OS has accepted %r, written were %r' % (w.accepted, payloads)))
+                    w.bad.append(('lost-bytes', 'at quiescence the OS has accepted %s, written were %s' % (_s(w.accepted), _s(payloads))))
             else:
                 if not w.accepted.startswith(w.need_before_close):
-                    w.bad.append(('lost-bytes', 'at quiescence the OS has accepted %r; %r was written before the close request'
-                                  % (w.accepted, w.need_before_close)))
+                    w.bad.append(('lost-bytes', 'at quiescence the OS has accepted %s; %s was written before the close request'
+                                  % (_s(w.accepted), _s(w.need_before_close))))
                 if w.closed_at is None:
                     w.bad.append(('never-closed', 'close was requested but the endpoint is still open at quiescence'))
         else:
@@ -304,6 +311,12 @@ def programs(tier):
                 for ca in [None] + list(range(1, len(pl) + 1)):
                     for mode in ('burst', 'spread'):
                         yield (ep, pn, pl, ca, mode), k
+    # one multi-megabyte payload (larger than what one send() takes): 3 MiB + 5 bytes, alone and behind a short one
+    big = bytes(range(256)) * (3 * 4096) + b'tail!'
+    for ep in endpoints:
+        for pl in ((big,), (b'A', big)):
+            for ca in (None, len(pl)):
+                yield (ep, 'Select', pl, ca, 'burst'), 1
     if tier == 'quick':
         for ep in endpoints:
             for pn in ('Poll', 'EPoll'):
@@ -317,11 +330,12 @@ POLLERS = ('Select', 'Poll', 'EPoll')
 
 
 def pj(program):
-    return {'endpoint': program[0], 'poller': program[1], 'payloads': [p.decode() for p in program[2]], 'close_after': program[3], 'mode': program[4]}
+    return {'endpoint': program[0], 'poller': program[1], 'payloads': [p.decode('latin1') if len(p) < 100 else 'BIG%d' % len(p) for p in program[2]], 'close_after': program[3], 'mode': program[4]}
 
 
 def from_json(d):
-    return (d['endpoint'], d['poller'], tuple(p.encode() for p in d['payloads']), d['close_after'], d['mode'])
+    big = bytes(range(256)) * (3 * 4096) + b'tail!'
+    return (d['endpoint'], d['poller'], tuple(big if p.startswith('BIG') else p.encode('latin1') for p in d['payloads']), d['close_after'], d['mode'])
 
 
 def signature(w, kind):
@@ -346,7 +360,7 @@ def _work(items):
                 st.counters['executions_with_%s_answer' % p] += 1
             if w.closed_at is not None and 'partial' in w.paths | set(['x']) and program[3] is not None and w.env.deviations():
                 st.counters['executions_with_close_deferred_behind_a_refused_or_partial_write'] += 1
-            st.outcome((pj(program)['endpoint'], w.accepted, w.closed_at, tuple(w.events), tuple(w.env.choices)))
+            st.outcome((pj(program)['endpoint'], w.accepted if len(w.accepted) < 100 else (len(w.accepted), hash(w.accepted)), w.closed_at, tuple(w.events), tuple(w.env.choices)))
             for kind, text in w.bad:
                 if kind == 'harness':
                     st.selfcheck_errors.append('%s %r' % (text, pj(program)))
@@ -356,7 +370,7 @@ def _work(items):
             if w.env.diverged:
                 st.selfcheck_errors.append('replay diverged: ' + w.env.diverged)
             if len(st.samples) < 2 and len(w.env.deviations()) == 2:
-                st.sample({'program': pj(program), 'answers': w.env.deviations(), 'accepted': w.accepted.decode(), 'events': w.events})
+                st.sample({'program': pj(program), 'answers': w.env.deviations(), 'accepted': w.accepted[:40].decode('latin1'), 'events': w.events})
             return w.env
         e3.explore(run_one, bound)
     return st
